@@ -267,6 +267,12 @@ def route_case(ctx, case):
             return fn
         for h in chain:
             types = tuple(CLASSES[n] for n in h['filter'])
+            if h.get('as_tuple'):
+                # the types given as ONE argument, a tuple as an except
+                # clause takes it (isinstance accepts nested tuples); an
+                # empty tuple then matches nothing, like `except ():`
+                types = (types,)
+                ctx.label('filter_given_as_one_tuple')
             if case.get('decorator') and h['id'] % 2:
                 conn.exception_handler(*types, early=bool(h.get('early')))(
                     make_handler(h))
@@ -397,7 +403,8 @@ def route_case(ctx, case):
         cur_cls = type(current) if not isinstance(current, tuple) \
             else CLASSES[next(x for x in chain
                               if x['id'] == current[1]).get('new', 'C')]
-        if not types or issubclass(cur_cls, types):
+        if (not types and not h.get('as_tuple')) or \
+                (types and issubclass(cur_cls, types)):
             want_calls.append((h['id'], current))
             if h['do'] == 'raise':
                 current = ('made', h['id'])
@@ -509,6 +516,7 @@ COMPONENTS = {'route': route_case}
 def handler_strategy():
     return st.fixed_dictionaries({
         'filter': st.sampled_from(FILTERS).map(list),
+        'as_tuple': st.sampled_from([False, False, True]),
         'early': st.booleans(),
         'do': st.sampled_from(['return', 'raise', 'raise', 'reraise',
                                'reconnect', 'reconnect_direct', 'bye',
@@ -603,7 +611,13 @@ def t_origins(ctx):
                            {'filter': ['A'], 'early': False,
                             'do': 'return'}],
                           [{'filter': [], 'early': True,
-                            'do': 'bare_raise'}]):
+                            'do': 'bare_raise'}],
+                          [{'filter': [], 'early': False, 'do': 'return',
+                            'as_tuple': True},
+                           {'filter': ['B', 'C'], 'early': False,
+                            'do': 'return', 'as_tuple': True}],
+                          [{'filter': [], 'early': True, 'do': 'return',
+                            'as_tuple': True}]):
                 for comp in (None, 256):
                     route_case(ctx, fix_case({
                         'origin': origin, 'exc': 'B', 'chain': chain,
@@ -632,7 +646,7 @@ def t_origins(ctx):
                             'final': final, 'final_new': 'EOFError',
                             'compress': None, 'version': 757,
                             'pending_write_error': True}))
-    ctx.exhaustive_done('9 origins x 4 finals x 8 chains x 2 compression '
+    ctx.exhaustive_done('9 origins x 4 finals x 10 chains x 2 compression '
                         'modes')
 
 
